@@ -533,6 +533,25 @@ func ExprGrammar(r *rng.R, twist string) *ExprSpec {
 		prods = append(prods,
 			gram.Prod{Terms: []gram.Term{tok(x)}, Qual: &gram.Qual{N: 1}},
 			gram.Prod{Terms: []gram.Term{tok(x)}, Qual: &gram.Qual{N: 2}})
+	case "three-way-cell":
+		// total = expr OP expr next to the qualified expr OP expr, both
+		// reachable: after "expr OP expr" the cell on OP holds a shift and two
+		// reductions (expr and total); the reduce/reduce part spans two rules
+		// and must be reported whatever the qualifiers say
+		if len(es.Levels) > 0 {
+			op := es.Levels[0].Ops[0]
+			nr := len(g.Rules)
+			g.Rules = append(g.Rules, gram.Rule{Name: "total", Prods: []gram.Prod{
+				{Terms: []gram.Term{{Ref: e}, tok(op), {Ref: e}}},
+			}})
+			g.Rules = append(g.Rules, gram.Rule{Name: "top", Prods: []gram.Prod{
+				{Terms: []gram.Term{{Ref: gram.Ref{Kind: gram.KRule, Idx: nr}}, tok(op), tok(es.Num)}},
+				{Terms: []gram.Term{{Ref: e}}},
+			}})
+			g.Rules[0].Prods = prods
+			g.Start = len(g.Rules) - 1
+			return es
+		}
 	case "mixed-shift-levels":
 		// expr OP expr with the same operator at two levels: the productions
 		// wanting the shift carry different levels
